@@ -106,6 +106,12 @@ fn keys_for<V: Fv>(seed: u64, nheavy: usize, nlight: usize, heavy: &mut Shards, 
         s[31] = 6;
         seeds.push((s, "seed-D6")); // before fix 95c463b this seed gave max|F| = 128 (Falcon-512)
     }
+    // seeds whose candidate stream passes through the (F, G) range decision (corpus found offline, see corpus.rs)
+    let ncorpus = if nheavy > 8 { crate::corpus::fg_window(V::N).len() } else if V::N == 512 { 4 } else { 2 };
+    for (i, tag) in crate::corpus::fg_window(V::N).iter().take(ncorpus) {
+        seeds.push((crate::corpus::corpus_seed(*i), tag));
+    }
+    let nheavy = nheavy.max(seeds.len() + 1);
     while seeds.len() < nheavy {
         seeds.push((rng.gen(), "random"));
     }
@@ -540,4 +546,55 @@ pub fn keys(args: &Args) {
         edge_valid_keys::<V1024>(seed, &mut heavy, &mut light);
     }
     println!("heavy {} light {} verify {}", heavy.finish(), light.finish(), verify.finish());
+}
+
+/// Search tool (not a check): seeds whose candidate stream passes through the (F, G) range decision of ntru_gen
+/// (tap verdict 5), with the extremes of the rejected solution.  Its output feeds the corpus `FG_WINDOW_SEEDS`.
+pub fn fgseeds(args: &Args) {
+    let n = args.num("--n", 512) as usize;
+    let start = args.num("--start", 0);
+    let count = args.num("--count", 1000);
+    let nthreads = args.num("--threads", 16);
+    let mut handles = vec![];
+    for t in 0..nthreads {
+        handles.push(std::thread::spawn(move || {
+            use rand::SeedableRng;
+            let mut i = start + t;
+            while i < start + count {
+                let mut seed = [0u8; 32];
+                seed[..8].copy_from_slice(&i.to_le_bytes());
+                seed[31] = 0x46;
+                verif::begin(Plan { record: true, ..Default::default() });
+                if n == 512 {
+                    let _ = V512::keygen(seed);
+                } else {
+                    let _ = V1024::keygen(seed);
+                }
+                let evs = verif::end();
+                let verdicts: Vec<u8> = evs.iter().filter_map(|e| match e { Event::NtruCandidate { verdict, .. } => Some(*verdict as u8), _ => None }).collect();
+                if verdicts.contains(&5) || verdicts.contains(&4) {
+                    let mut rng = rand::rngs::StdRng::from_seed(seed);
+                    for v in &verdicts {
+                        let f = verif::gen_poly(n, &mut rng);
+                        let g = verif::gen_poly(n, &mut rng);
+                        if *v == 5 {
+                            let f32: Vec<i32> = f.iter().map(|&x| x as i32).collect();
+                            let g32: Vec<i32> = g.iter().map(|&x| x as i32).collect();
+                            if let Some((cf, cg)) = verif::ntru_solve_entrypoint(&f32, &g32) {
+                                println!("{{\"n\":{},\"seed\":{},\"verdicts\":{:?},\"minF\":{},\"maxF\":{},\"minG\":{},\"maxG\":{}}}", n, i, verdicts,
+                                         cf.iter().min().unwrap(), cf.iter().max().unwrap(), cg.iter().min().unwrap(), cg.iter().max().unwrap());
+                            }
+                        } else if *v == 4 {
+                            println!("{{\"n\":{},\"seed\":{},\"verdicts\":{:?},\"minf\":{},\"maxf\":{},\"ming\":{},\"maxg\":{}}}", n, i, verdicts,
+                                     f.iter().min().unwrap(), f.iter().max().unwrap(), g.iter().min().unwrap(), g.iter().max().unwrap());
+                        }
+                    }
+                }
+                i += nthreads;
+            }
+        }));
+    }
+    for h in handles {
+        h.join().unwrap();
+    }
 }
